@@ -3,6 +3,7 @@ import IdpyVerif.Driver.C17
 import IdpyVerif.Driver.Prov
 import IdpyVerif.Driver.Msg
 import IdpyVerif.Driver.Redirect
+import IdpyVerif.Driver.Pkce
 open Idpy
 
 structure DState where
@@ -12,6 +13,7 @@ structure DState where
 def dispatch (st : DState) (fields : List String) : DState × String :=
   match fields with
   | "lv" :: args => (st, (Driver.C14.codec args).getD "bad-op")
+  | "pkce" :: args => (st, (Driver.Pkce.handle args).getD "bad-op")
   | "redir" :: args => (st, (Driver.Redirect.handle args).getD "bad-op")
   | "msg" :: args => (st, (Driver.Msg.handle args).getD "bad-op")
   | "cookie" :: args => (st, (Driver.C17.handle args).getD "bad-op")
